@@ -243,9 +243,61 @@ func concScenario(out *Out, sc int) {
 			cancel()
 		}
 	}
+	// two clients that do nothing but overwrite the hot keys, two that do nothing but read them - hundreds of
+	// times in ONE read-only transaction: a write that becomes visible in the middle of the evaluation of
+	// such a transaction yields an answer that no single state of the table gives
+	hotWriter := func(ci int) {
+		defer wg.Done()
+		cr := newRand(int64(99500 + sc*100 + ci))
+		for op := 0; op < perClient*3 && !abandoned.Load(); op++ {
+			n := nodes[cr.Intn(3)]
+			k := hot[cr.Intn(len(hot))]
+			v := []byte(fmt.Sprintf("h%d-%d", ci, op))
+			ctx, cancel := context.WithTimeout(context.Background(), 10*time.Second)
+			inv := now()
+			resp, err := n.e.Put(ctx, &regattapb.PutRequest{Table: tb, Key: k, Value: v})
+			rt := now()
+			cancel()
+			if err != nil {
+				mu.Lock()
+				abandonWhy = strings.ReplaceAll(fmt.Sprint(err), " ", "_")
+				mu.Unlock()
+				abandoned.Store(true)
+				return
+			}
+			cmd := &regattapb.Command{Type: regattapb.Command_PUT, Kv: &regattapb.KeyValue{Key: k, Value: v}}
+			add(concRec{write: true, what: "put", inv: inv, resp: rt, rev: resp.Header.Revision, line: mkEntry(resp.Header.Revision, cmd).render(),
+				ans: fmt.Sprintf("rev %d %s", resp.Header.Revision, aResp(&regattapb.ResponseOp{Response: &regattapb.ResponseOp_ResponsePut{ResponsePut: &regattapb.ResponseOp_Put{}}}))})
+		}
+	}
+	wideReader := func(ci int) {
+		defer wg.Done()
+		cr := newRand(int64(99700 + sc*100 + ci))
+		for op := 0; op < perClient/2 && !abandoned.Load(); op++ {
+			n := nodes[cr.Intn(3)]
+			t := &regattapb.Txn{}
+			for i := 0; i < 300+cr.Intn(300); i++ {
+				t.Success = append(t.Success, &regattapb.RequestOp{Request: &regattapb.RequestOp_RequestRange{RequestRange: &regattapb.RequestOp_Range{Key: hot[i%len(hot)]}}})
+			}
+			ctx, cancel := context.WithTimeout(context.Background(), 10*time.Second)
+			inv := now()
+			resp, err := n.e.Txn(ctx, &regattapb.TxnRequest{Table: tb, Success: t.Success})
+			rt := now()
+			cancel()
+			if err == nil {
+				add(concRec{what: "txn", lin: true, inv: inv, resp: rt, line: rTxn(nil, t.Success, nil), ans: fmt.Sprintf("ok %s %s", b2i(resp.Succeeded), aResps(resp.Responses))})
+				out.Count("wide_txn")
+			}
+		}
+	}
 	for ci := 0; ci < nclients; ci++ {
 		wg.Add(1)
 		go client(ci)
+	}
+	for ci := 0; ci < 2; ci++ {
+		wg.Add(2)
+		go hotWriter(ci)
+		go wideReader(ci)
 	}
 	wg.Wait()
 	if abandoned.Load() {
